@@ -33,6 +33,7 @@ var hactTerm = map[string]string{
 	"launch": "HLaunch", "timer": "HTimer", "conf": "HReq RConf", "start": "HReq RStart",
 	"stop": "HReq RStop", "reset": "HReq RReset", "trigger": "HReq RTrigger", "exit": "HExit",
 	"kill": "HKill", "settle": "HSettle", "listen": "HListen", "ready": "HReady",
+	"starve": "HStarve",
 }
 
 var reqTerm = map[string]string{"conf": "RConf", "start": "RStart", "stop": "RStop", "reset": "RReset", "trigger": "RTrigger"}
@@ -127,6 +128,8 @@ func corpus() []Scenario {
 		{Kind: "ctl", Beh: Beh{Ign: true, ExitOnDone: -1}, Sched: sch("launch listen ready kill kill settle")}, // was C17-f: second KILL refused
 		{Kind: "ctl", Beh: Beh{Fork: true, ExitOnDone: -1}, Sched: sch("launch listen ready kill settle")},     // was C17-g: forked child swept
 		{Kind: "ctl", Beh: Beh{Fork: true, BadStart: true, ExitOnDone: -1}, Sched: sch("launch listen ready kill settle")}, // was C17-k: wrong start state, group swept
+		{Kind: "ctl", Beh: Beh{Fork: true, ExitOnDone: -1}, Sched: sch("launch listen starve kill settle")},          // was C17-m: start-up poll times out (30 s), group killed
+		{Kind: "ctl", Beh: Beh{Ign: true, Fork: true, ExitOnDone: -1}, Sched: sch("launch starve kill settle")},     // the device never listens: dial times out (30 s), TERM/INT/KILL to the group
 		{Kind: "ctl", Beh: Beh{Ign: true, ExitOnDone: -1}, Sched: sch("launch listen ready conf start kill settle")}, // full escalation
 		{Kind: "ctl", Beh: Beh{ExitOnDone: 0}, Sched: sch("launch listen ready kill settle")},    // leaves on DONE
 		{Kind: "ctl", Beh: Beh{TransFail: true, ExitOnDone: -1}, Sched: sch("launch listen ready conf kill settle")}, // KILLED
